@@ -118,6 +118,10 @@ class Monitor:
         reqs = [d for d in self.sent.get(addr, [])]
         nresp = self.seen_out.get(addr, 0) + 1
         obs = doc.get("observation")
+        if st in ("CREATED", "RESET_DONE"):
+            held = g._agent_states.get(addr)
+            if held is not None and self.S.view_id(held) != self.S.view_id(obs["state"]):
+                self.hit("C15", "view differs", f"the view in the {st} response is not the view the coordinator holds for this agent")
         if st == "CREATED":
             self.init_view[addr] = obs["state"]
             self.log[addr] = []
@@ -162,6 +166,9 @@ class Monitor:
             held = g._agent_states.get(addr)
             if held is not None and self.S.view_id(held) != self.S.view_id(obs["state"]):
                 self.hit("C15", "view differs", "the view in the response is not the view the coordinator holds")
+            wr = self.world_result.pop(addr, None)
+            if wr is not None and self.S.view_id(wr) != self.S.view_id(obs["state"]):
+                self.hit(["C16", "C15"], "response is not the world's result", "the OK response does not carry the view the world returned for this action")
         elif st == "FORBIDDEN":
             if addr in self.final:
                 fr, fv = self.final[addr]
@@ -196,6 +203,33 @@ class Monitor:
         elif st == "BAD_REQUEST":
             pass
 
+    # ---- the glue between coordinator, world and global defender ---------------------------------------
+    def on_world_step(self, agent_id, agent_state, action):
+        """The world must be stepped with the agent's stored view and the action the agent sent."""
+        g = self.S.g
+        held = g._agent_states.get(agent_id)
+        if held is not None and agent_state is not held and self.S.view_id(held) != self.S.view_id(agent_state):
+            self.hit(["C16", "C04"], "world stepped with another view", "the world was stepped with a view that is not the agent's current view")
+        sent = self.last_game.get(agent_id)
+        try:
+            same = sent is None or sent.get("as_dict") is None or json.dumps(action.as_dict, sort_keys=True, default=str) == json.dumps(sent["as_dict"], sort_keys=True, default=str)
+        except Exception:
+            same = True
+        if not same:
+            self.hit(["C16", "C14"], "world stepped with another action", "the world was stepped with another action than the one the agent sent")
+
+    def on_defender_call(self, agent, action, episode_actions):
+        """C17: the defender decides on the episode's history (the actions answered OK in this episode) and nothing else."""
+        exp = [x[0] for x in self.log.get(agent, [])]
+        try:
+            got = json.loads(json.dumps(list(episode_actions), default=str))
+            same = json.dumps(got, sort_keys=True) == json.dumps(json.loads(json.dumps(exp, default=str)), sort_keys=True)
+        except Exception:
+            same = True
+        if not same:
+            self.hit(["C17", "C16"], "defender history", f"the global defender was given a history of {len(list(episode_actions))} actions, this episode has {len(exp)} answered actions")
+        self.count("defender_calls")
+
     # ---- at quiescence ------------------------------------------------------------------------------
     def at_quiescence(self):
         """C01: every request is answered unless one of the three barriers holds it back."""
@@ -227,6 +261,7 @@ class Monitor:
                     self.hit("C01", f"unanswered {kind}", f"a {kind} request is unanswered at quiescence although no barrier holds it back")
                 self.count(f"parked:{kind}")
 
+    world_result = None
     consumed = None
     last_kind = None
     last_game = None
@@ -238,6 +273,35 @@ def instrument(S, cfg, CR, goals):
     M = Monitor(S, cfg, CR)
     M.goals = goals
     M.consumed, M.last_kind, M.last_game, M.last_reset = {}, {}, {}, {}
+    M.world_result = {}
+    g = S.g
+    orig_step = g.step
+
+    async def step(agent_id=None, agent_state=None, action=None):
+        M.on_world_step(agent_id, agent_state, action)
+        res = await orig_step(agent_id=agent_id, agent_state=agent_state, action=action)
+        M.world_result[agent_id] = res
+        return res
+    g.step = step
+    if getattr(g, "_global_defender", None) is not None:
+        orig_detected = g.is_detected
+        gd = g._global_defender
+        orig_swt = gd.stochastic_with_threshold
+        cur = {}
+
+        def is_detected(agent):
+            cur["agent"] = agent
+            try:
+                return orig_detected(agent)
+            finally:
+                cur.pop("agent", None)
+
+        def swt(action, episode_actions, *a, **k):
+            if "agent" in cur:
+                M.on_defender_call(cur["agent"], action, episode_actions)
+            return orig_swt(action, episode_actions, *a, **k)
+        g.is_detected = is_detected
+        gd.stochastic_with_threshold = swt
     orig_seg = S._segment
 
     def seg(lab, task):
